@@ -108,3 +108,92 @@ class ConstRng:
 
     def integers(self, a, b=None):
         return self.ints.pop(0)
+
+
+class InvRng(SymRng):
+    """random() = 1/x with x > 1 symbolic: keeps (L-2)/random() and comparisons with constants linear."""
+
+    def random(self, size=None):
+        from .core import Poly, ONE
+        nm = self._nm("x")
+        ctx = self.ctx
+        if ctx.symbolic:
+            x = ctx.real(nm, lo=1)
+            u = Q(ONE, x.n)
+        else:
+            x = ctx.real(nm, lo=1)
+            u = 1 / x
+        self.draws.append(("random", u))
+        return u
+
+
+class ScriptEngine:
+    """MD engine stand-in obeying the C12 contract: propagate() emits frame 0 = the phase point it was given, then
+    frames with fresh symbolic order values, each added through the REAL EngineBase.add_to_path."""
+
+    order_function = None
+    beta = 1.0
+
+    def __init__(self, ctx, nfresh, name="eng", kick_changes_order=False):
+        self.ctx = ctx
+        self.nfresh = nfresh
+        self.name = name
+        self.seg = 0
+        self.kick_changes_order = kick_changes_order
+        self.propagations = []
+        self.rgen = None
+        self.calls = []
+
+    # -- interface used by tis.py
+    def set_mdrun(self, pens):
+        self.calls.append("set_mdrun")
+
+    def clean_up(self):
+        self.calls.append("clean_up")
+
+    def modify_velocities(self, system, tis_set):
+        self.calls.append("modify_velocities")
+        system.kicked = True
+        return self.ctx.real(f"{self.name}.dek"), self.ctx.real(f"{self.name}.kin", lo=0, lo_strict=False)
+
+    def calculate_order(self, system):
+        if self.kick_changes_order:
+            return [self.ctx.real(f"{self.name}.kick_order")]
+        return list(system.order)
+
+    def dump_phasepoint(self, phasepoint, deffnm="conf"):
+        phasepoint.set_pos((f"{self.name}/{deffnm}", 0))
+        phasepoint.dumped = deffnm
+
+    def seg_value(self, sid, k):
+        return self.ctx.real(f"{self.name}.s{sid}_{k}")
+
+    def propagate(self, path, ens_set, system, reverse=False):
+        from infretis.classes.engines.enginebase import EngineBase
+        left, _, right = ens_set["interfaces"]
+        self.seg += 1
+        sid = self.seg
+        rec = {"sid": sid, "reverse": reverse, "start_tag": getattr(system, "tag", None), "start_order": system.order[0],
+               "maxlen": path.maxlen, "frames": 0, "interfaces": (left, right)}
+        self.propagations.append(rec)
+        success, status = False, "script"
+        k = 0
+        while True:
+            if k > self.nfresh:
+                self.ctx.note("script-exhausted")
+                self.ctx.assume(False)  # outside the stated bound on frames per propagation
+            p = system.copy()
+            p.vel_rev = reverse
+            if k > 0:
+                p.order = [self.seg_value(sid, k)]
+            else:
+                p.order = [system.order[0]]
+            p.config = (f"{self.name}/traj{sid}", k)
+            p.tag = (sid, k, "B" if reverse else "F", getattr(system, "tag", None))
+            status, success, stop, add = EngineBase.add_to_path(path, p, left, right)
+            rec["frames"] = k + 1
+            if stop:
+                break
+            k += 1
+        rec["success"] = success
+        return success, status
